@@ -87,4 +87,25 @@ PROPS = {
         assumptions=_DRV_ASSUME + ['first n delivered variables are the NL variables in order (ModelAPI contract)', 'range->slack mapping as documented in include/mp/flat/redef/std/range_con.h',
                                    'vectors shorter than the delivered model are not injected (outside the stated quantifier); an absent and an empty value group are treated as equal'],
     ),
+    'C19': dict(
+        engine='drvsim', level='exploration',
+        quick=dict(count=40000), thorough=dict(budget_s=420),
+        shrink_paths=[['faults']],
+        rule='scenario = seeded NL model with names (some containing quotes, backslashes, tabs) x .col/.row present / absent / shorter than the model / CRLF / .col only '
+             'x cvt:names 0..3 under any of its synonyms in any option source x acceptance profile; whole driver run, names observed at the solver stub '
+             '(AddVariables pnames, name() of every constraint and objective). Non-trivial = every run; distinct = (names mode, files mode, feature set, delivered model size)',
+        assumptions=_DRV_ASSUME + ['SOS sets declared through .sosno/.ref suffixes have no name of their own: their generated SOS1_<n>_/SOS2_<n>_ names are accepted',
+                                   'a names file whose first line is empty or whose last line is torn is malformed input and not judged here (C09 covers the diagnosis)',
+                                   'derived = the name extends (has as prefix) the name of some original variable, constraint, logical constraint or objective'],
+    ),
+    'C20': dict(
+        engine='drvsim', level='exploration',
+        quick=dict(count=30000), thorough=dict(budget_s=420),
+        shrink_paths=[['faults']],
+        rule='scenario = seeded NL model (names with characters needing JSON escaping in 60%, infinite bounds in 40%) x acceptance profile x cvt:names x writegraph option under both '
+             'names; whole driver run; the JSONL file left on the simulated disk is parsed line by line with a strict JSON parser and cross-checked against the constraints, variables '
+             'and objectives the solver stub received in the same run (final set == delivered multiset by content). Non-trivial = every run; distinct = (names?, delivered?, features, model size)',
+        assumptions=_DRV_ASSUME + ['strict JSON parser in sim/core/json.h (no bare inf/nan, escapes validated, control characters rejected)',
+                                   'link node class names: src_vars()/src_cons()/src_objs()/dest_vars()/dest_objs()/dest_cons(g) or a CON_TYPE; dest_cons(g) ranges are not bounded by the oracle'],
+    ),
 }
